@@ -1015,6 +1015,149 @@ def key_rebind(ctx, which=(FB, FF)):
         ctx.floor('KEY-REBIND', n, 1, 're-bound per-class entries in %s' % f.name)
 
 
+# ---------------------------------------------------------------- EMPTY-GUARD
+def _truth_of(test, name_texts):
+    """+1: the test is true only when the sequence is non-empty; -1: true only when it is
+    empty; 0: not a test of its emptiness.  Recognised: `x`, `not x`, `len(x)`, `len(x) > 0`,
+    `len(x) != 0`, `len(x) >= 1`, `len(x) == 0`, `x != []`, `x == []`."""
+    from ..flow import strip_not
+    t, pol = strip_not(test)
+    sg = 1 if pol else -1
+    txt = norm_text(t)
+    if txt in name_texts:
+        return sg
+    for nm in name_texts:
+        if txt in ('len(%s)' % nm, 'len(%s) > 0' % nm, 'len(%s) != 0' % nm, 'len(%s) >= 1' % nm,
+                   '0 < len(%s)' % nm, '%s != []' % nm):
+            return sg
+        if txt in ('len(%s) == 0' % nm, 'len(%s) < 1' % nm, '%s == []' % nm):
+            return -sg
+    return 0
+
+
+def empty_guard(ctx, which=(FB, FF)):
+    ctx.rule('EMPTY-GUARD', 'a per-measurement list that is filled only inside the scheduling loop '
+             '(a sensor whose samples all lie outside the span leaves it empty) is indexed, '
+             'stacked or asked for a second dimension only under a test that it is non-empty')
+    for M in _models(ctx, which):
+        f = M.f
+        res = lambda e: f.module.resolve(e, f.local_names())
+        # dictionaries whose entries start as [] and are appended to inside the loop
+        dicts = set()
+        for st in M.pre:
+            for x in ast.walk(st):
+                if isinstance(x, ast.Assign) and isinstance(x.targets[0], ast.Subscript) and \
+                        isinstance(x.value, ast.List) and not x.value.elts:
+                    dicts.add(norm_text(x.targets[0].value))
+        filled = set()
+        for x in ast.walk(M.loop):
+            if isinstance(x, ast.Call) and isinstance(x.func, ast.Attribute) and \
+                    x.func.attr in ('append', 'extend') and isinstance(x.func.value, ast.Subscript) \
+                    and norm_text(x.func.value.value) in dicts:
+                filled.add(norm_text(x.func.value.value))
+        # an append that every run of the function executes (outside any `if`) would make the
+        # entry non-empty; the repository has none (entries are filled under the epoch test)
+        dicts &= filled
+        ctx.need(dicts, '%s: no per-measurement result lists found' % f.name)
+        n_haz = 0
+        ARR = ('numpy.asarray', 'numpy.array', 'numpy.asanyarray', 'numpy.atleast_2d')
+        STACK = ('numpy.vstack', 'numpy.hstack', 'numpy.concatenate', 'numpy.stack',
+                 'builtins.max', 'builtins.min')
+
+        def scan(body, lists, arrays, guard):
+            """lists / arrays: texts (names or `D[k]`) that denote a maybe-empty list / an array
+            made of one; guard: set of texts known non-empty here"""
+            nonlocal n_haz
+            lists, arrays = set(lists), set(arrays)
+            for st in body:
+                if isinstance(st, ast.If):
+                    tr = _truth_of(st.test, lists | arrays)
+                    which_ = None
+                    if tr:
+                        from ..flow import strip_not
+                        for nm in lists | arrays:
+                            if nm in norm_text(st.test):
+                                which_ = nm
+                    hazards(st.test, lists, arrays, guard)
+                    g_body = guard | ({which_} if tr > 0 and which_ else set())
+                    g_else = guard | ({which_} if tr < 0 and which_ else set())
+                    scan(st.body, lists, arrays, g_body)
+                    scan(st.orelse, lists, arrays, g_else)
+                    continue
+                if isinstance(st, (ast.For, ast.While)):
+                    hazards(st.iter if isinstance(st, ast.For) else st.test, lists, arrays, guard)
+                    lists, arrays = scan(st.body, lists, arrays, guard)
+                    continue
+                if isinstance(st, (ast.With, ast.Try)):
+                    lists, arrays = scan(st.body, lists, arrays, guard)
+                    continue
+                hazards(st, lists, arrays, guard)
+                if isinstance(st, ast.Assign) and len(st.targets) == 1 and \
+                        isinstance(st.targets[0], ast.Name):
+                    tgt, v = st.targets[0].id, st.value
+                    vt = norm_text(v)
+                    is_l = (isinstance(v, ast.Subscript) and norm_text(v.value) in dicts) or \
+                        vt in lists
+                    is_a = isinstance(v, ast.Call) and res(v.func) in ARR and bool(v.args) and \
+                        (norm_text(v.args[0]) in lists or
+                         (isinstance(v.args[0], ast.Subscript) and
+                          norm_text(v.args[0].value) in dicts))
+                    src_guarded = (vt in guard) if is_l else \
+                        (is_a and norm_text(v.args[0]) in guard)
+                    lists.discard(tgt)
+                    arrays.discard(tgt)
+                    guard = guard - {tgt}
+                    if is_l:
+                        lists.add(tgt)
+                    elif is_a:
+                        arrays.add(tgt)
+                    if src_guarded:
+                        guard = guard | {tgt}
+            return lists, arrays
+
+        def hazards(node, lists, arrays, guard):
+            nonlocal n_haz
+            for x in walk_no_nested_funcs(node):
+                what = subj = None
+                if isinstance(x, ast.Subscript) and isinstance(x.ctx, ast.Load):
+                    base = norm_text(x.value)
+                    is_list = base in lists or (isinstance(x.value, ast.Subscript) and
+                                                norm_text(x.value.value) in dicts)
+                    if is_list and isinstance(x.slice, (ast.Constant, ast.UnaryOp)) and \
+                            norm_text(x.slice).lstrip('-').isdigit():
+                        what, subj = 'element %s' % norm_text(x), base
+                    # <array of it>.shape[k], k >= 1
+                    if isinstance(x.value, ast.Attribute) and x.value.attr == 'shape' and \
+                            isinstance(x.slice, ast.Constant) and isinstance(x.slice.value, int) \
+                            and x.slice.value >= 1:
+                        b2 = x.value.value
+                        bt = norm_text(b2)
+                        via = bt in arrays or (isinstance(b2, ast.Call) and res(b2.func) in ARR
+                                               and b2.args and (norm_text(b2.args[0]) in lists))
+                        if via:
+                            what = 'dimension %s' % norm_text(x)
+                            subj = bt if bt in arrays else norm_text(b2.args[0])
+                if isinstance(x, ast.Call) and res(x.func) in STACK and len(x.args) >= 1 and \
+                        (norm_text(x.args[0]) in lists or
+                         (isinstance(x.args[0], ast.Subscript) and
+                          norm_text(x.args[0].value) in dicts)):
+                    what, subj = '%s(%s)' % (res(x.func).split('.')[-1], norm_text(x.args[0])), \
+                        norm_text(x.args[0])
+                if what is None:
+                    continue
+                n_haz += 1
+                ok = subj in guard
+                ctx.ob('EMPTY-GUARD', ok, None, '%s: %s only where the list is non-empty'
+                       % (f.name, what), f=f, node=x, key='empty-' + what,
+                       why='%s is evaluated although `%s` is empty for a measurement object '
+                           'whose samples all lie outside the processed span (no innovation was '
+                           'appended): IndexError / ValueError after the whole data set was '
+                           'processed - the filter does not return' % (what, subj))
+        scan(M.post, set(), set(), set())
+        ctx.floor('EMPTY-GUARD', n_haz, 1, 'uses of per-measurement lists that need a non-empty '
+                                           'list in %s' % f.name)
+
+
 # ----------------------------------------------------------------- SCHED-SPAN / AVG-RATE
 def _int_lin(e, names):
     """integer-linear form {name: coeff, 1: const} of an expression over the given atoms
